@@ -61,7 +61,7 @@ func tallFamily(c *Ctx, prop string) {
 				}
 				add(s)
 				if len(s) > 2 {
-					add(s[1:])         // all but the first leaf of the subtree
+					add(s[1:])        // all but the first leaf of the subtree
 					add(s[:len(s)-1]) // all but the last
 				}
 			}
